@@ -17,6 +17,8 @@ LM = f"{A}.lmeasure.LMeasure"
 
 
 def run(ctx, col, tier):
+    from ..rules import negidx as _negidx
+    _negidx.run(ctx, col, ('swcgeom.analysis.features', 'swcgeom.analysis.lmeasure', 'swcgeom.analysis.sholl', 'swcgeom.analysis.feature_extractor', 'swcgeom.core.tree', 'swcgeom.core.node', 'swcgeom.core.path', 'swcgeom.core.branch', 'swcgeom.transforms.tree'))
     col.rule("R-DISPATCH", "every feature name of the front end resolves, by the front end's own "
              "lookup logic, to an existing evaluator (extractor-level get_<name>, Features.get_<name>, "
              "or <head>_features -> get_<rest>); deprecated names resolve to raising stubs", floor=17,
